@@ -88,7 +88,10 @@ def run_endpoint(build, V, tier, seed, dist):
     accepted = mism = 0
     for i, ((t, f), r) in enumerate(zip(cases, impl)):
         case = {"stmt": t, "flags": f}
-        if "panic" in r or "exit" in r or "timeout" in r:
+        if "timeout" in r:
+            dist["endpoint_slow"] = dist.get("endpoint_slow", 0) + 1     # no answer within the pool's limit (load): termination is C10's business
+            continue
+        if "panic" in r or "exit" in r:
             V.violation("crash:visual-endpoint", case, observed={k: r[k] for k in r if k != "stack"}, what="visual conversion panicked / exited / hung")
             continue
         if r.get("err") != "NO_ERROR_DURING_PARSING":
